@@ -215,6 +215,8 @@ func (itr *ColumnIterator) PutCol(col *record.ColVal) {
 }
 
 func (itr *ColumnIterator) isClosed() bool {
+	itr.mu.RLock()
+	defer itr.mu.RUnlock()
 	return itr.closed
 }
 
